@@ -32,6 +32,9 @@ FIXED = [
      _E % ('e1', 'B+', 'C-'), 'O\to1\tA+ B+', 'O\to2\tC+ B- A-', 'U\tu1\to2 C'],
     ['S\tA\t10\t*', 'S\tB\t10\t*', _E % ('e1', 'A+', 'B+'), _E % ('*', 'B-', 'A-'), _E % ('e2', 'A+', 'A+'), _E % ('*', 'B+', 'B-'),
      'O\to1\tA+ B+', 'O\to2\tA+ e1+ B+', 'O\to3\tA+ A+ B+', 'O\to4\tA+ B+ B-', 'U\tu1\te1 e2'],
+    # groups of a single item: an edge alone implies its two segments, a nested group alone is the group
+    ['S\tA\t10\t*', 'S\tB\t10\t*', _E % ('e1', 'A+', 'B+'), 'O\to1\te1+', 'O\to2\te1-', 'O\to3\tA-', 'O\to4\to1+', 'O\to5\to1-',
+     'U\tu1\te1', 'U\tu2\tu1', 'U\tu3\to2'],
     # groups that contain themselves, directly or through another group: reported as inconsistent (F77)
     ['S\tA\t10\t*', 'S\tB\t10\t*', _E % ('e1', 'A+', 'B+'), 'O\to1\to2+ A+', 'O\to2\to1+ A+', 'O\to3\tA+ B+', 'U\tu1\tu2 A', 'U\tu2\tu1',
      'U\tu3\tu3 B', 'U\tu4\to3 A'],
@@ -213,6 +216,9 @@ def observe(case):
         if not isinstance(x.name, str):
             continue
         r = impl.outcome(lambda: [el_name(i) for i in x.captured_path])
+        r_again = impl.outcome(lambda: [el_name(i) for i in x.captured_path])
+        if r_again != r:
+            out.setdefault('__again__', []).append((x.name, r, r_again))
         r2 = impl.outcome(lambda: [el_name(i) for i in x.captured_segments])
         r3 = impl.outcome(lambda: [el_name(i) for i in x.captured_edges])
         out[x.name] = {'kind': 'O', 'path': r, 'segments': r2, 'edges': r3,
@@ -304,6 +310,8 @@ def judge(case):
     out = []
     known = case.setdefault('_known', [])
     del known[:]
+    for name, first, second in obs.pop('__again__', []):
+        out.append(('asked again, the captured path of %s is answered differently' % name, first, second))
     for gid, its in doc.og.items():
         if gid in doc.tag_clash or gid not in obs:
             continue
